@@ -165,12 +165,15 @@ type hijackWatch struct {
 	source  watch.Interface
 	result  chan watch.Event
 	stopped bool
+	// done is closed by Stop so that the relay goroutine never stays blocked on a consumer that went away
+	done chan struct{}
 }
 
 func newHijackWatch(source watch.Interface) watch.Interface {
 	w := &hijackWatch{
 		source: source,
 		result: make(chan watch.Event),
+		done:   make(chan struct{}),
 	}
 	go w.receive()
 	return w
@@ -181,6 +184,7 @@ func (w *hijackWatch) Stop() {
 	defer w.Unlock()
 	if !w.stopped {
 		w.stopped = true
+		close(w.done)
 		w.source.Stop()
 	}
 }
@@ -197,15 +201,25 @@ func (w *hijackWatch) receive() {
 			}
 			asts, ok := event.Object.(*asv1.StatefulSet)
 			if !ok {
-				panic("unreachable")
+				// not a StatefulSet (e.g. the *metav1.Status of an Error event): relay it as it is
+				select {
+				case w.result <- event:
+				case <-w.done:
+					return
+				}
+				continue
 			}
 			sts, err := ToBuiltinStatefulSet(asts)
 			if err != nil {
 				panic(err)
 			}
-			w.result <- watch.Event{
+			select {
+			case w.result <- watch.Event{
 				Type:   event.Type,
 				Object: sts,
+			}:
+			case <-w.done:
+				return
 			}
 		}
 	}
